@@ -56,7 +56,7 @@ func (p *prop) Run(line string) core.Outcome {
 	}
 	f := strings.Split(line, " ")
 	switch f[0] {
-	case "adapt", "madapt", "perm", "eqv", "leak", "site", "hist", "argidx", "bind", "rename":
+	case "adapt", "madapt", "perm", "eqv", "leak", "site", "hist", "argidx", "bind", "rename", "sopts":
 		// cases that run the adapter can die of a fatal (unrecoverable) Go error
 		switch noteCase(line) {
 		case "crash":
@@ -92,6 +92,10 @@ func (p *prop) Run(line string) core.Outcome {
 			if t, err := core.UnHex(f[1]); err == nil && core.Hex(t) == f[1] {
 				return runAdapt(line, t, f[0] == "madapt")
 			}
+		}
+	case "sopts":
+		if len(f) == 3 {
+			return runSopts(line, f[1], f[2])
 		}
 	case "rename":
 		if len(f) == 3 {
@@ -143,8 +147,10 @@ func (p *prop) Run(line string) core.Outcome {
 	return core.Outcome{Impl: "bad-op", Tags: []string{"bad-op", "trivial"}}
 }
 
-// repeats: every text is adapted 1+repeats times (fresh Adapter value, fresh parse each time).
-const repeats = 3
+// repeats: every ACCEPTED text is adapted 1+repeats times (fresh Adapter value, fresh parse each
+// time) and the bytes compared: output that depends on Go map iteration order shows up as a
+// difference between two of the eight results with high probability.
+const repeats = 7
 
 func clip(s string, n int) string {
 	if len(s) > n {
@@ -168,7 +174,11 @@ func checkTotalDet(line, text string, o *core.Outcome) adaptRes {
 			What: fmt.Sprintf("adapter panicked: %s; input %q", clip(r.panicMsg, 300), clip(text, 400))})
 		return r
 	}
-	for i := 0; i < repeats; i++ {
+	n := repeats
+	if r.err != nil {
+		n = 1 // a rejected text: the verdict is compared once more; accepted texts get the full count
+	}
+	for i := 0; i < n; i++ {
 		r2 := adaptText(text)
 		if r2.verdict() != r.verdict() {
 			o.Failures = append(o.Failures, core.Failure{Case: line, Class: "nondeterministic-verdict",
